@@ -93,7 +93,18 @@ var c07Fillers = []string{
 func c07TemplateCase(rt *rapid.T) *c07Case {
 	p := rapid.SampledFrom(c07Patches).Draw(rt, "patch")
 	var f strings.Builder
-	f.WriteString("package a\n\nimport \"fmt\"\n\nvar _ = fmt.Sprint\n\n")
+	// the import section decides which re-parse (format.Node's import sorting,
+	// imports.Process) looks at the printed file
+	f.WriteString("package a\n\n" + rapid.SampledFrom([]string{
+		"import \"fmt\"\n\nvar _ = fmt.Sprint\n\n",
+		"import \"fmt\"\n\nvar _ = fmt.Sprint\n\n",
+		"",
+		"import \"fmt\"\nimport \"os\"\n\nvar _, _ = fmt.Sprint, os.Exit\n\n",
+		"import (\n\t\"fmt\"\n\t\"os\"\n)\n\nvar _, _ = fmt.Sprint, os.Exit\n\n",
+		"import (\n\t\"fmt\"\n)\n\nimport \"os\"\n\nvar _, _ = fmt.Sprint, os.Exit\n\n",
+		"import \"os\"\n\nimport (\n\t\"fmt\"\n)\n\nvar _, _ = fmt.Sprint, os.Exit\n\n",
+		"import f \"fmt\"\nimport . \"os\"\nimport _ \"embed\"\n\nvar _ = f.Sprint\n\n",
+	}).Draw(rt, "imports"))
 	n := rapid.IntRange(1, 3).Draw(rt, "n")
 	for i := 0; i < n; i++ {
 		x := rapid.SampledFrom(c07Fillers).Draw(rt, fmt.Sprintf("x%d", i))
